@@ -26,7 +26,7 @@ _AXES = {
     "directions": ["xyz", "xy", "z"],
     "mean": [True, False],
     "detectors": ["waves", "annular", "pixelated", "flexible", "two"],
-    "exit_planes": ["none", "2", "tuple"],
+    "exit_planes": ["none", "2", "tuple", "open"],
     "builder": ["probe_point", "probe_grid", "planewave", "smatrix"],
     "lazy": [True, False],
     "grid": ["16x16", "15x18", "12x20"],
@@ -164,7 +164,7 @@ def _make_fp(c, atoms=None, seed=None, n=None, mean=None):
 def _pot_kwargs(c):
     th = _thicknesses(c)
     n = len(th)
-    ep = {"none": None, "2": 2, "tuple": (0, n - 1)}[c["exit_planes"]]
+    ep = {"none": None, "2": 2, "tuple": (0, n - 1), "open": (0,)}[c["exit_planes"]]  # open: single plane, not the last slice
     st = tuple(th) if isinstance(c["slice_thickness"], list) else th[0]
     return dict(gpts=_gpts(c), slice_thickness=st, exit_planes=ep)
 
